@@ -173,6 +173,44 @@ def refresh_family(ctx, rng) -> list:
     return out
 
 
+def layout_family(ctx, rng) -> list:
+    """the acceptance half over stored-media layout variety (harness/c18_layouts.py: largesize mdat headers,
+    version-1 tfdt, explicit / implicit base, styp+sidx, no tfdt, default sample durations, senc before
+    saiz/saio, 16-byte IVs, fragments numbered from 0 and 7, 64 KiB segments, PIFF clones) – static, live and
+    on-demand sessions, $Number$ and $Time$; they also serve as bases for the corruption catalogue"""
+    import c18_run
+    import c18_layouts
+    out = []
+    for name, info in c18_layouts.STREAMS.items():
+        STREAMS.setdefault(name, {"vod_max": c18_layouts.DURATION_S - 4, "enc": info["enc"]})
+        dq = {"drm": rng.choice(["clearkey", "playready"])} if info["enc"] else {}
+        combos = [("vod", {}, "hand_made.mpd"), ("vod", {"timeline": "1"}, "hand_made.mpd"),
+                  ("live", {"depth": "30"}, "hand_made.mpd"), ("live", {"depth": "30"}, "manifest_a.mpd")]
+        if name != "c18le":
+            # templates that print presentationTimeOffset: ledger start-number-pto-mismatch for c18le
+            combos += [("vod", {}, "manifest_e.mpd"), ("live", {"depth": "30", "timeline": "1"}, "manifest_e.mpd")]
+        if name == "c18la":
+            # on-demand profile: the stored bytes are served as they are (ledger odvod-* for the other layouts)
+            combos += [("odvod", {}, "hand_made.mpd"), ("odvod", {}, "manifest_vod_aiv.mpd")]
+        if not ctx.thorough:
+            keep = {"c18la": None, "c18lf": [0, 3]}.get(name, [rng.randrange(0, 2), rng.randrange(2, 4)])
+            if keep is not None:
+                combos = [combos[i] for i in keep]
+        for mode, q, tmpl in combos:
+            if mode == "odvod" and info["enc"]:
+                continue
+            q = dict(q, **(dq if mode != "odvod" else {}))
+            if tmpl == "manifest_vod_aiv.mpd":
+                q.pop("drm", None)
+            dur = 12 if mode != "live" else rng.choice([16, 38])
+            out.append(c18_run.Case(name, tmpl, mode, q, dur, rng.choice(NOW_POOL[:2])))
+    if ctx.thorough:
+        for stream in ("bbb", "tears"):
+            out.append(c18_run.Case(stream, "hand_made.mpd", "odvod", {}, 12, NOW_POOL[0]))
+            out.append(c18_run.Case(stream, "manifest_vod_aiv.mpd", "odvod", {}, 12, NOW_POOL[1]))
+    return out
+
+
 def gen_pristine(ctx, rng):
     import c18_run
     cases = []
@@ -198,6 +236,7 @@ def gen_pristine(ctx, rng):
                         dur = min(dur, STREAMS[stream]["vod_max"])
                     cases.append(c18_run.Case(stream, name, mode, q, dur, now))
     cases += refresh_family(ctx, rng)
+    cases += layout_family(ctx, rng)
     # tears in quick: two cases
     if not ctx.thorough:
         from dashlive.server.manifests import manifest_map
@@ -615,6 +654,10 @@ def init_loads(data: bytes) -> bool:
 def correspond(case, res, chs, batch: Batch):
     """queue the model's questions about one session"""
     info = {"case": case.json()}
+    if case.mode == "odvod":
+        # the on-demand profile is not modelled: oracle and final-report bookkeeping only
+        report_ops(res, chs["vreport"], batch, info)
+        return
     init_data = {}
     by_url = {}
     for ex in res.exchanges:
@@ -750,7 +793,9 @@ def correspond(case, res, chs, batch: Batch):
                 chs["vgen"].count("template-vod")
                 exp_seq = [s["exp_seq"] for s in segs]
                 chs["vgen"].evaluations += 1
-                if exp_seq != list(range(1, n + 1)):
+                sn0 = rep["start_number"]
+                chs["vgen"].count(f"vod-startNumber:{'1' if sn0 == 1 else '0' if sn0 == 0 else 'other'}")
+                if exp_seq != list(range(sn0, sn0 + n)):
                     chs["vgen"].disagreements.append({**info, "rep": rep["id"], "what": "vod numbering",
                                                       "impl": exp_seq[:5]})
 
@@ -890,6 +935,14 @@ def segment_plan(rng, wide: bool):
             except Exception:
                 continue
             bytes_variants.append((label, d2, T + delta if kind == "tfdt" else T, S + delta if kind == "mfhd" else S))
+        # trun.data_offset moved by the size of a box header (8) either way: with a 16-byte mdat header
+        # "8 too small" points at the second half of the header, not at the payload
+        for label, delta in (("trun-8", -8), ("trun+8", 8)):
+            try:
+                d2, _ = c18_run.apply_corruption({"kind": "trun", "delta": delta}, data)
+                yield f"{label}/exact", {"seq": S, "dt": T, "dur": D or None, "tol": tol0, "pto": min(pto, T)}, d2
+            except Exception:
+                pass
         for blabel, d, t, s_ in bytes_variants:
             good = {"seq": s_, "dt": t, "dur": D or None, "tol": tol0, "pto": min(pto, t)}
             yield f"{blabel}/exact", dict(good), d
@@ -920,6 +973,7 @@ def direct_cases(ctx):
     import c18_run
     now = NOW_POOL[0]
     cases = [c18_run.Case("bbb", "hand_made.mpd", "vod", {"timeline": "1"}, 12, now),
+             c18_run.Case("c18la", "hand_made.mpd", "vod", {"timeline": "1"}, 12, now),     # 16-byte mdat headers
              c18_run.Case("bbb", "hand_made.mpd", "live", {"depth": "30"}, 12, now),
              c18_run.Case("bbb", "manifest_e.mpd", "vod", {"drm": "clearkey"}, 12, now)]
     if ctx.thorough:
@@ -968,6 +1022,7 @@ def run_direct_channel(ctx, app, ch, batch):
                 ch.count(f"expected-{f_}:" + ("None" if v is None else "zero" if v == 0 else "positive"))
             ch.count("observed-tfdt:" + ("zero" if seg["dt"] == 0 else "positive"))
             ch.count("index:" + ("first" if r["index"] == 0 else "later"))
+            ch.count("mdat-header:" + ot.split(";")[0].split(",")[11])
             for k in kinds or ["clean"]:
                 ch.count(f"kind:{k}")
             ch.nontrivial.add((case.path(), rep["id"], r["index"], r["label"]))
@@ -1028,6 +1083,8 @@ def run_sessions(app, cases, chs, batch, limit_s=None):
         results.append((case, res))
         run.evaluations += 1
         c = case.corruption
+        if c is None:
+            run.count(f"pristine-stream:{case.stream}:{case.mode}")
         label = "pristine" if c is None else (("probe:" if c.get("probe") else "") + c["kind"])
         if c is not None and res.applied is None:
             run.count(f"not-applicable:{label}")
@@ -1065,8 +1122,10 @@ def run_sessions(app, cases, chs, batch, limit_s=None):
 
 def channels(ctx):
     import segchecks
+    import c18_layouts
     chs = {name: Channel(name, rule=rule) for name, rule in RULES.items()}
     app = segchecks.get_app()
+    c18_layouts.ensure(app)
     batch = Batch()
     rng = ctx.rng("validator_run")
     pristine = gen_pristine(ctx, rng)
@@ -1126,8 +1185,10 @@ def channels(ctx):
 
 def _run_one(case_json):
     import c18_run
+    import c18_layouts
     import segchecks
     app = segchecks.get_app()
+    c18_layouts.ensure(app)
     case = c18_run.Case.from_json(case_json)
     res = c18_run.run_case(app, case, wall_limit=WALL_LIMIT)
     return case, res
@@ -1139,6 +1200,8 @@ def search(ctx, disagreements):
     import c18_run
     import segchecks
     app = segchecks.get_app()
+    import c18_layouts
+    c18_layouts.ensure(app)
     seen = set()
     rng = ctx.rng("search")
     seeds = []
